@@ -103,6 +103,7 @@ func Main(t *testing.T, engine string, props map[string]PropFn) {
 		fmt.Printf("INFRA unknown property %s for engine %s\n", prop, engine)
 		os.Exit(2)
 	}
+	startHangWatch()
 	switch os.Getenv("VERIF_MODE") {
 	case "", "worker":
 		worker(t, engine, prop, fn)
